@@ -97,15 +97,16 @@ func c17r1(c *Ctx) {
 	kv := getKV(c.P)
 	bucketGet := c.P.Method("chain", "DBBucket", "Get")
 	bucketIter := c.P.Method("chain", "DBBucket", "Iter")
-	memGet := c.P.Method("chain", "memBucket", "Get")
-	memIter := c.P.Method("chain", "memBucket", "Iter")
+	mbT, cbT := memBucketType(c.P), cacheBucketType(c.P)
+	memGet := c.P.Method("chain", mbT, "Get")
+	memIter := c.P.Method("chain", mbT, "Iter")
 	var dbget *types.Func
 	if c.P.HasMethod("chain", "MemDB", "get") {
 		dbget = c.P.Method("chain", "MemDB", "get")
 	}
 	overlayGets := []*types.Func{memGet, dbget}
 
-	layered := []string{"MemDB", "memBucket", "cacheBucket"}
+	layered := []string{"MemDB", mbT, cbT}
 	for _, tn := range layered {
 		for _, f := range c.P.MethodsOf("chain", tn) {
 			isIter := false
@@ -141,7 +142,7 @@ func c17r1(c *Ctx) {
 							what = append(what, "MemDB.buckets")
 						}
 					case *ast.CallExpr:
-						if f.Callee(e) == bucketGet.Origin() && tn == "cacheBucket" {
+						if f.Callee(e) == bucketGet.Origin() && tn == cbT {
 							sites = append(sites, n)
 							what = append(what, "backend DBBucket.Get")
 						}
@@ -430,7 +431,7 @@ func c17r3(c *Ctx) {
 		ob.Check(len(cc.CallsTo(false, memCancel)) > 0 && len(cc.CallsTo(false, dbCancel)) > 0, nil, "CacheDB.Cancel must cancel the overlay and the wrapped database")
 	}
 	// BoltChainDB
-	txField := c.P.Field("coreutils", "BoltChainDB", "tx")
+	txField := c.P.FieldOr("coreutils", "BoltChainDB", "tx", func(t types.Type) bool { return ir.IsNamed(t, "go.etcd.io/bbolt", "Tx") })
 	for _, spec := range []struct{ name, txMethod string }{{"Flush", "Commit"}, {"Cancel", "Rollback"}} {
 		f := c.P.Fn("coreutils", "BoltChainDB", spec.name)
 		g := f.Graph()
